@@ -103,6 +103,7 @@ def stepLine (st : Top) : List String → Top × String
     | some s => ({ st with sched := s, toks := toks }, "ok")
     | none => (st, "bad-op")
   | ["spurious", _, _] => (st, "ok")
+  | ["spurious", _, _, _] => (st, "ok")
   | ["run"] =>
     match st.conf with
     | .none => (st, "bad-op")
